@@ -143,6 +143,20 @@ for _m, _helper in (("_parse_salt", "_norm_salt"), ("_parse_rounds", "_norm_roun
         descr="sha256_crypt / sha512_crypt: altered salt / rounds field of a stored hash",
     ))
 
+# the generic mixins: a stored hash is parsed STRICTLY whatever the class was customised with (CryptContext builds its
+# records with using(relaxed=True); that leniency must not leak into from_string)
+for _m, _helper, _cls in (("_parse_salt", "_norm_salt", "HasSalt"), ("_parse_rounds", "_norm_rounds", "HasRounds")):
+    CONTRACTS.append(Contract(
+        f"{_cls}.{_m}", f"passlib/utils/handlers.py::{_cls}.{_m}",
+        params={"self": Obj(fields={"checksum": Union(NoneT(), Str()), _helper: _capture(_helper), "use_defaults": __import__("pyvc.contract", fromlist=["Bool"]).Bool(),
+                                    "relaxed": __import__("pyvc.contract", fromlist=["Bool"]).Bool()}),
+                ("salt" if _m == "_parse_salt" else "rounds"): Str() if _m == "_parse_salt" else Int()},
+        ensures=[("an out-of-range salt / cost of a parsed hash is never silently repaired: the validator is called strict",
+                  lambda it, env, _h=_helper: it.to_zbool(it.truth(it.cmp_vals("==", it.run.ghost[_h], False))))],
+        canary=False,
+        descr="any instance state, incl. a class customised with relaxed=True",
+    ))
+
 BOUNDED = [Bounded("c08", "harness/c08.py", descr="single-edit neighbours of valid hashes, arbitrary strings", timeout=900)]
 
 P = "passlib/handlers/"
@@ -155,4 +169,6 @@ MUTANTS = [
     ("parse_mc3: unpack without length check", "passlib/utils/handlers.py", "    if len(parts) == 3:\n        rounds, salt, chk = parts\n    elif len(parts) == 2:\n        rounds, salt = parts\n        chk = None\n    else:\n        raise exc.MalformedHashError(handler)\n", "    if len(parts) >= 3:\n        rounds, salt, chk = parts\n    else:\n        rounds, salt = parts\n        chk = None\n", "hold", "^parse_mc3|^sha1_crypt"),  # a wrong part count then raises ValueError from the unpacking: still a value error
     ("cisco_type7: length guard off by one", P + "cisco.py", "        if len(hash) < 2:\n            raise uh.exc.InvalidHashError(cls)\n        salt = int(hash[:2])", "        if len(hash) < 1:\n            raise uh.exc.InvalidHashError(cls)\n        salt = int(hash[0] + hash[1])", "refute", "^cisco_type7"),
     ("harmless: phpass message text", P + "phpass.py", "\"missing rounds\"", "\"no rounds\"", "hold", "^phpass"),
+    ("HasSalt._parse_salt: leniency of the customised class leaks into parsing", "passlib/utils/handlers.py", "    def _parse_salt(self, salt):\n        return self._norm_salt(salt)\n", "    def _parse_salt(self, salt):\n        return self._norm_salt(salt, relaxed=getattr(self, \"relaxed\", False))\n", "refute", "HasSalt._parse_salt"),
+    ("HasRounds._parse_rounds: cost below the minimum clamped while parsing", "passlib/utils/handlers.py", "    def _parse_rounds(self, rounds):\n        return self._norm_rounds(rounds)\n", "    def _parse_rounds(self, rounds):\n        return self._norm_rounds(rounds, relaxed=True)\n", "refute", "HasRounds._parse_rounds"),
 ]
